@@ -354,6 +354,20 @@ def respell(rng, doc, p=0.5):
     return d
 
 
+def shuffle_keys(rng, doc):
+    """The same document with the keys of every mapping in another order (the
+    user's metadata is left as it is)."""
+    def walk(x, top=False):
+        if isinstance(x, dict):
+            ks = list(x.keys())
+            rng.shuffle(ks)
+            return {k: (copy.deepcopy(x[k]) if (top and k == "metadata") else walk(x[k])) for k in ks}
+        if isinstance(x, list):
+            return [walk(y) for y in x]
+        return x
+    return walk(doc, top=True)
+
+
 def hoist_defaults(rng, doc):
     """Move values shared by several places into defaults (deme-level epoch
     defaults, top-level epoch / migration / pulse / deme defaults); the places
